@@ -922,13 +922,27 @@ def join_states(ctx, a, b, tag, widen=False, thresholds=()):
             cand.add((mb[x], mb[y]))
     # relations to length-like symbols that were only implicit in the intervals must survive a join
     # that loosens the interval
+    changed_t = []
+    stable_syms = []
     for key, t in pair.items():
         if key[0] == key[1]:
+            lo_, hi_ = out.itv[t]
+            if lo_ != hi_ and a.itv[t] == b.itv[t] and len(stable_syms) < 40:
+                stable_syms.append(t)       # an unchanged, non-constant quantity (e.g. a length or bound)
             if not widen or out.itv[t] == a.itv[t]:
                 continue
+        changed_t.append(t)
         for s_ in anchors:
             if s_ != t:
                 cand.add((t, s_))
+    if len(changed_t) <= 14:
+        for t1 in changed_t:
+            for t2 in changed_t:
+                if t1 != t2:
+                    cand.add((t1, t2))
+            for s_ in stable_syms:
+                cand.add((t1, s_))
+                cand.add((s_, t1))
     for (tx_, ty_) in cand:
         if tx_ == ty_:
             continue
@@ -991,16 +1005,25 @@ def join_states(ctx, a, b, tag, widen=False, thresholds=()):
     return out
 
 
+IMPORTANT = []   # thresholds derived from the entry state of the function being analysed (lengths, bounds)
+
+
 def widen_itv(old, new, thresholds, tyrange):
     lo, hi = new
     if lo < old[0]:
         want = lo - 2 * (old[0] - lo) if lo < 0 else lo
         cands = [t for t in thresholds if t <= want]
-        lo = max(cands) if cands else tyrange[0]
-        lo = max(lo, tyrange[0])
+        imp = [t for t in IMPORTANT if t <= lo]
+        lo2 = max(cands) if cands else tyrange[0]
+        if imp and max(imp) >= lo2:
+            lo2 = max(imp)
+        lo = max(lo2, tyrange[0])
     if hi > old[1]:
         want = hi + 2 * (hi - old[1]) if hi > 0 else hi
         cands = [t for t in thresholds if t >= want]
-        hi = min(cands) if cands else tyrange[1]
-        hi = min(hi, tyrange[1])
+        imp = [t for t in IMPORTANT if t >= hi]
+        hi2 = min(cands) if cands else tyrange[1]
+        if imp and min(imp) <= hi2:
+            hi2 = min(imp)
+        hi = min(hi2, tyrange[1])
     return lo, hi
